@@ -105,7 +105,43 @@ def run(ctx: Ctx):
     ctx.ob("C10-O3", "R18 table", f, "working matrix side is max(rows, cols)", len(nd) == 1 and ast.unparse(nd[0]) in ("max(n_rows, n_cols)", "max(n_cols, n_rows)"), "", node=f.node)
     copies = [n for n in own_nodes(f.node) if isinstance(n, ast.Assign) and ast.unparse(n.targets[0]) == f"{wm}[i][j]" and ast.unparse(n.value) == f"{user}[i][j]"]
     ctx.ob("C10-O3", "R18 table", f, "real cells are copied from the user's matrix at the same position", len(copies) == 1, "", node=f.node)
+    check_dual_update(ctx)
     generic_sweeps(ctx)
+
+
+def check_dual_update(ctx: Ctx):
+    """Every step of the augmenting search applies the dual update (row/column potentials of the used columns, slacks
+    of the others) before it moves to the next column; only a zero step may be skipped."""
+    f = ctx.func("hungarian", "solve_hungarian")
+    cfg = cfg_of(f.node)
+    gv = GuardView(cfg)
+    upd = [n for n in own_nodes(f.node) if isinstance(n, ast.AugAssign) and ast.unparse(n.target).startswith(("row_potential[", "col_potential[", "min_slack["))]
+    ctx.floor("dual update statements", len(upd), 3)
+    adv = [n for n in own_nodes(f.node) if isinstance(n, ast.Assign) and ast.unparse(n) == "current_col = next_col"]
+    ctx.require(len(adv) == 1, "augmenting-search advance `current_col = next_col` not found")
+    an = cfg.node_of(adv[0])
+    inner = an.loop
+    ok = True
+    why = []
+    for u in upd:
+        un = cfg.node_of(u)
+        # guards decided inside the search loop, other than the used/unused split and the loop itself
+        for b in cfg.guards(un):
+            t = b.test
+            if t.kind != "test" or t.loop is None:
+                continue
+            from sa.guards import atoms as _atoms
+
+            for a in _atoms(t.ast, b.pol):
+                if a in ("T:used[j]", "F:used[j]") or a.startswith(("IN-LOOP", "AFTER-LOOP")) or a == atom_of("col_match[current_col] != 0"):
+                    continue
+                if a in (atom_of("delta != 0"), "T:delta"):
+                    continue
+                ok = False
+                why.append(f"`{ast.unparse(u)}` only under `{a}`")
+    ctx.ob("C10-O4", "R29 EXACTLY-ONCE", f, "every step of the augmenting search applies the dual update (only a zero step may be skipped)", ok, "; ".join(sorted(set(why))) + (": a skipped update leaves the potentials infeasible for the row just entered" if why else ""), node=upd[0] if upd else f.node)
+    signs = sorted(ast.unparse(u) for u in upd)
+    ctx.ob("C10-O4", "R16 PAIRED-EFFECTS", f, "used columns: row potential += delta, column potential -= delta; unused columns: slack -= delta", signs == ["col_potential[j] -= delta", "min_slack[j] -= delta", "row_potential[col_match[j]] += delta"], f"{signs}", node=upd[0] if upd else f.node)
 
 
 # ---------------------------------------------------------------------------------------------
@@ -144,6 +180,16 @@ def _v_offby(tree):
     M.replace_stmt(g, lambda s: M.src_is(s, "assignment[col_match[j] - 1] = j - 1"), M.stmts("assignment[col_match[j] - 1] = j"))
 
 
+def _v_update_only_positive(tree):
+    g = M.find_func(tree, "solve_hungarian")
+    M.replace_stmt(g, lambda s: isinstance(s, ast.For) and M.src_is(s.iter, "range(n + 1)") and M.src_has(s, "row_potential[col_match[j]] += delta"), lambda s: [ast.If(test=M.expr("delta > 0"), body=[s], orelse=[])])
+
+
+def _t_skip_zero_step(tree):
+    g = M.find_func(tree, "solve_hungarian")
+    M.replace_stmt(g, lambda s: isinstance(s, ast.For) and M.src_is(s.iter, "range(n + 1)") and M.src_has(s, "row_potential[col_match[j]] += delta"), lambda s: [ast.If(test=M.expr("delta != 0"), body=[s], orelse=[])])
+
+
 def _t_reformat(tree):
     pass
 
@@ -162,6 +208,8 @@ VARIANTS = [
     M.Variant("dummy cells filled with a different constant in maximise mode", HU, _v_pad_nonuniform, "C10-O3"),
     M.Variant("reflection around the minimum", HU, _v_reflect_min, "C10-O3"),
     M.Variant("column index off by one in extraction", HU, _v_offby, "C10-O2"),
+    M.Variant("dual update applied only for positive steps (seed C10-B)", HU, _v_update_only_positive, "C10-O4"),
+    M.Variant("twin: dual update skipped for a zero step", HU, _t_skip_zero_step, None),
     M.Variant("twin: reformat", HU, _t_reformat, None),
     M.Variant("twin: rename assignment / objective / working matrix", HU, _t_rename, None),
 ]
